@@ -4,7 +4,7 @@ from props.common import run_property
 import props.msg  # noqa: registers the judges
 
 PROP = 'C01'
-TARGETS_Q = ['#x', 'bob', 'alice', 'dave', '#nochan', '@#x', '+#x', '~&@%+#x', '&y', '&&y', '@+#x', '#x,bob', '#x,#x', 'bob,@#x', '#x,&y', '@#x,+#x', '#x,bob,#x', 'bob,#x,bob']
+TARGETS_Q = ['#x', 'bob', 'alice', 'dave', '#nochan', '@#x', '+#x', '~&@%+#x', '&y', '&&y', '@+#x', '#x,bob', '#x,#x', 'bob,@#x', '#x,&y', '@#x,+#x', '#x,bob,#x', 'bob,#x,bob', 'dave,bob', 'dave,#x']
 TARGETS_T = TARGETS_Q + ['%#x', '~#x', '&#x', '@&y', '~&&y', 'bob,carol,alice', '#x,@#x,bob', 'dave,#nochan,#x', '&y,&&y', '@#x,bob,@#x', 'bob,carol,bob,carol', '#x,&y,#x']
 
 def make_cases(tier, profile, judges=('no_panic', 'inv', 'msg_delivery'), verbs=('PRIVMSG', 'NOTICE')):
@@ -16,14 +16,14 @@ def make_cases(tier, profile, judges=('no_panic', 'inv', 'msg_delivery'), verbs=
                 line = f'{verb} {t} :{tx}'
                 chans_used = [c for c in ('#x', '&y') if c in t]
                 plain = [c for c in ('#x', '&y') if c not in chans_used] or []
-                if len(chans_used) == 2 and tier == 'quick': plain = ['&y']
+                if len(chans_used) == 2: plain = ['&y']
                 split = []
                 partial = {}
                 nprefix = max([len(x) - len(x.lstrip('~&@%+')) for x in t.split(',')])
                 if '#x' in t: split = ['mem_bob_#x', 'mem_carol_#x']
-                if nprefix >= 3 and tier == 'quick':
+                if nprefix >= 3:
                     partial = {'mem_carol_#x': False}; split = ['mem_bob_#x', 'mem_alice_#x', 'founder_bob_#x', 'protected_bob_#x', 'operator_bob_#x']
-                if t.count(',') >= 1 and tier == 'quick' and '#x' in t:
+                if t.count(',') >= 1 and '#x' in t:
                     partial = {'mem_carol_#x': False, 'mem_carol_&y': False}; split = ['mem_bob_#x', 'mem_alice_#x']
                 cases.append(dict(name=line, line=line, judges=list(judges), split=split, partial0=partial,
                                   spec=dict(sym_modes=False, sym_caps=False, sym_invites=False, sym_max_joins=False, sym_topic=False, sym_key=False, sym_limit=False,
